@@ -125,26 +125,30 @@ example : ∃ s', step { back := [7], lastAckedX := 3 } .ackrecv = some s' ∧ s
 /-! ## the receiver inside the pipeline is the receiver of C16
 
   The pipeline model uses the C16 receiver (Stef/Receiver.lean) restricted to an accepting consumer,
-  with the Responder collapsed to its tick branch. This is justified on the full receiver LTS: in
-  EVERY run without a permanent consumer error nothing ever enters the bad-data channel, no range is
-  ever reported and no tick fires with bad data waiting - so `ack_monotone_partial` and
-  `ack_after_consume_partial` of C16 apply to it without further hypotheses. -/
+  with the Responder collapsed to its tick branch (load, inner select `default:`, acknowledge).
+  This is justified on the full receiver LTS: in EVERY run without a permanent consumer error
+  nothing ever enters the bad-data channel, no range is ever reported and the bad-data branches of
+  both selects are never enabled; `ack_monotone` and `ack_after_consume` of C16 hold for it as for
+  every run. -/
 
 theorem receiver_without_rejects_is_tick_only (evs : List Stef.Receiver.Event) (s : Stef.Receiver.State)
     (h : Stef.Receiver.run Stef.Receiver.init evs = some s)
     (hacc : ∀ e ∈ evs, e ≠ Stef.Receiver.Event.consume .perm) :
-    Stef.Receiver.TickClean Stef.Receiver.init evs ∧ s.queue = [] ∧ Stef.Receiver.reported s = [] ∧
+    s.queue = [] ∧ Stef.Receiver.reported s = [] ∧ Stef.Receiver.step s .badRecv = none ∧
       (Stef.Receiver.acks s).Pairwise (· ≤ ·) := by
   have h0 : Stef.Receiver.NoPerm Stef.Receiver.init := by simp [Stef.Receiver.NoPerm, Stef.Receiver.init]
-  obtain ⟨hc, hq⟩ := Stef.Receiver.tickClean_of_noPerm evs _ Stef.Receiver.inv_init h0 hacc
-  obtain ⟨h1, h2⟩ := hq s h
-  exact ⟨hc, h1, h2,
-    (Stef.Receiver.invT_run evs _ s Stef.Receiver.inv_init Stef.Receiver.invT_init hc h).2.sorted⟩
+  obtain ⟨h1, h2⟩ := Stef.Receiver.noPerm_run evs _ s Stef.Receiver.inv_init h0 hacc h
+  have hi := Stef.Receiver.inv_run evs _ s Stef.Receiver.inv_init h
+  have h3 : Stef.Receiver.step s .badRecv = none := by
+    simp only [Stef.Receiver.step, h1]
+    split <;> simp_all
+  exact ⟨h1, h2, h3,
+    (Stef.Receiver.invA_run evs _ s Stef.Receiver.inv_init Stef.Receiver.invA_init h).2.sorted⟩
 
 /-- non-vacuity: two accepted batches, two ticks. -/
 example : ∃ s, Stef.Receiver.run Stef.Receiver.init
-      [.checkErr, .decode 2, .consume .accept, .schedAck, .tick, .sendOk,
-       .checkErr, .decode 3, .consume .accept, .schedAck, .tick, .sendOk] = some s ∧
+      [.checkErr, .decode 2, .consume .accept, .schedAck, .tick, .tickNoBad, .tickAck, .sendOk,
+       .checkErr, .decode 3, .consume .accept, .schedAck, .tick, .tickNoBad, .tickAck, .sendOk] = some s ∧
     Stef.Receiver.acks s = [2, 5] := ⟨_, rfl, by decide⟩
 
 /-! ## the exporter's pending map lags one acknowledgement (`pending-ack-off-by-one`)
